@@ -146,6 +146,8 @@ static int CurlAsyncRequest_new(HttpAsyncCtx *client, CurlAsyncRequest **t) {
 
 		tmp->cap = 0;
 		tmp->raw = NULL;
+		tmp->client = client;
+		tmp->reqCtx = NULL;
 
 		tmp->easyHandle = curl_easy_init();
 		if (tmp->easyHandle == NULL) {
